@@ -283,6 +283,9 @@ class Graph:
         for n in self.nodes:
             for b in n.spec.__bases__:
                 used.add(id(b))
+            # a class specification also keeps what was declared through the API alive
+            for b in getattr(n.spec, 'declared', ()):
+                used.add(id(b))
         leaves = [i for i, n in enumerate(self.nodes) if id(n.spec) not in used and n.kind in ('iface', 'decl') and i > 0]
         if not leaves:
             return
